@@ -295,3 +295,6 @@ def run(ctx):
     from engine.tagseq import tag_seq
     tag_seq(ctx, prog)
 
+    from engine.run import borrow
+    borrow(ctx, 'C01', ['FLUSH-PENDING'], 'an extra padding block appended at close makes the closed file report more frames than were written')
+
